@@ -32,3 +32,49 @@ pub fn run(path: &str) {
         }
     }
 }
+
+/// ad-hoc probe: compile every tx of a parameterless source (each input bound to one 10-ADA UTxO of the
+/// first party) and print the decoded outputs and mint
+pub fn compile(path: &str) {
+    use std::collections::{BTreeMap, HashSet};
+    use tx3_tir::reduce::Apply as _;
+    use tx3_tir::Node as _;
+    let src = std::fs::read_to_string(path).unwrap();
+    let mut ast = crate::pipeline::parse(&src).expect("parses");
+    let rep = crate::pipeline::analyze(&mut ast).expect("analyzes");
+    println!("analyze errors: {:?}", rep.errors);
+    for tx in &ast.txs {
+        let name = tx.name.value.clone();
+        let r = (|| -> Result<(), String> {
+            let t = tx3_lang::lowering::lower(&ast, &name).map_err(|e| format!("lower: {:?}", e))?;
+            let params = tx3_tir::reduce::find_params(&tx3_tir::encoding::AnyTir::V1Beta0(t.clone()));
+            let args: BTreeMap<String, tx3_tir::reduce::ArgValue> = params
+                .iter()
+                .map(|(k, ty)| {
+                    let mut tape = crate::tape::Tape::new(&[]);
+                    (k.clone(), crate::checks::c06::arg_for(ty, &mut tape))
+                })
+                .collect();
+            let t = t.apply_args(&args).map_err(|e| format!("args: {:?}", e))?;
+            let t = t.apply_fees(170_000).map_err(|e| format!("fees: {:?}", e))?;
+            let mut compiler = crate::pipeline::compiler(&crate::pipeline::Cfg::default());
+            let t = t.apply(&mut compiler).map_err(|e| format!("compiler ops: {:?}", e))?;
+            let t = t.reduce().map_err(|e| format!("reduce: {:?}", e))?;
+            let queries = tx3_tir::reduce::find_queries(&tx3_tir::encoding::AnyTir::V1Beta0(t.clone()));
+            let mut inputs: BTreeMap<String, HashSet<tx3_tir::model::core::Utxo>> = BTreeMap::new();
+            for (i, (q, _)) in queries.iter().enumerate() {
+                inputs.insert(q.clone(), HashSet::from([crate::checks::c06::some_utxo(i)]));
+            }
+            let t = t.apply_inputs(&inputs).map_err(|e| format!("inputs: {:?}", e))?;
+            let t = t.reduce().map_err(|e| format!("reduce: {:?}", e))?;
+            let c = crate::pipeline::compile(&t, &mut compiler).map_err(|e| e.describe())?;
+            let d = crate::dec::conway(&c.payload).map_err(|e| e.0)?;
+            for o in &d.outputs {
+                println!("  output lovelace={} assets={:?}", o.lovelace, o.assets.iter().map(|((p, n), q)| format!("{}.{}={}", hex::encode(&p[..4.min(p.len())]), String::from_utf8_lossy(n), q)).collect::<Vec<_>>());
+            }
+            println!("  mint={:?}", d.mint);
+            Ok(())
+        })();
+        println!("tx {}: {:?}", name, r);
+    }
+}
